@@ -17,6 +17,7 @@ from harness.common.num import fbits, q, unfbits, unq
 
 PID = "C17"
 LEVEL = "proof"
+EXTRA_PROP_FILES = ["C17Coll"]  # extract_subfield for fields and collections
 REQUIRED_THEOREMS = [
     "subdivide_sum", "subdivide_pos", "subdivide_balanced", "subdivide_contract", "contractB_iff", "balancedB_iff",
     "linCut_exact", "subdivideLin_exact", "subdivideLin_contract", "cut_at_integer_point", "subdivide_robust",
@@ -109,6 +110,14 @@ def classify(e):
 
 def _ints(a):
     return [int(x) for x in np.asarray(a).ravel()]
+
+
+def _ints_safe(a):
+    """integer codes; -1 for a value that is no code (uninitialised memory read as nan/inf/huge)"""
+    out = []
+    for x in np.asarray(a, dtype=float).ravel():
+        out.append(int(x) if np.isfinite(x) and abs(x) < 1e15 and float(x).is_integer() else -1)
+    return out
 
 
 def _opt(x):
@@ -298,6 +307,14 @@ def _mesh_worker(spec, obs):
                             fail(f"collection: padded data of member {k_} of sub-collection {i} differs from the sub-field "
                                  "of the member itself (ghost cells)")
                             break
+                if name == "collection":
+                    rec["member_ncomp"] = [int(np.prod(mm._data_full.shape[:-na])) if mm._data_full.ndim > na else 1
+                                           for mm in f]
+                    rec.setdefault("members", []).append({
+                        "ghost": [{"shape": [int(x) for x in mm._data_full.shape], "data": _ints_safe(mm._data_full)}
+                                  for mm in s1],
+                        "valid": [{"shape": [int(x) for x in mm._data_full.shape], "data": _ints_safe(mm.data)}
+                                  for mm in s0]})
                 parts.append(s0.data)
             back = mesh.combine_field_data(parts)
             if back.shape != f.data.shape or not np.array_equal(back, f.data):
@@ -1519,6 +1536,36 @@ def compare_mesh(ctx, spec, obs, ans):
                     if s["shape"][len(lead):] != e[i]["shape"] or int(np.prod(lead or [1])) != nc or s["data"] != exp:
                         bad.append((f"extract_subfield[{name}] node {i} (ghost={tag != ''})", exp[:60], s["data"][:60]))
                         break
+    # collections (`Mesh.subcollection`): per node, member and component the padded array; the model's undefined cells
+    # (ghost layer of a sub-field taken without ghost cells) are not compared, its defined cells in row-major order are
+    # the member's valid data
+    coll = (obs.get("fields") or {}).get("collection") or {}
+    for tag in ("", "_ghost"):
+        if "members" not in coll or "subcoll" + tag not in ans:
+            continue
+        mc = need("subcoll" + tag)
+        if mc is None:
+            continue
+        ctx.hist("fields", "subcollection vs model" + tag)
+        done = False
+        for i, (mnode, rnode) in enumerate(zip(mc, coll["members"])):
+            real = rnode["ghost" if tag else "valid"]
+            if len(mnode) != len(real):
+                bad.append((f"subcollection node {i}: number of members", len(mnode), len(real)))
+                break
+            for k_, (comps, r) in enumerate(zip(mnode, real)):
+                mshape = ([len(comps)] if len(comps) > 1 or len(r["shape"]) > len(comps[0]["shape"]) else []) + comps[0]["shape"]
+                if tag:
+                    mdata = [v for c in comps for v in c["data"]]
+                else:
+                    mdata = [v for c in comps for v in c["data"] if v is not None]
+                if mshape != r["shape"] or mdata != r["data"] or (tag and None in mdata):
+                    bad.append((f"subcollection node {i} member {k_} (ghost={tag != ''})",
+                                {"shape": mshape, "data": mdata[:60]}, {"shape": r["shape"], "data": r["data"][:60]}))
+                    done = True
+                    break
+            if done:
+                break
     for name, mv, iv in bad:
         ctx.disagree("mesh:" + name, case, mv, iv, "model vs GridMesh")
     return not bad
@@ -1643,6 +1690,12 @@ def run(ctx):
                               for idx in itertools.product(*[range(len(a)) for a in obs["axes"]])]
             subs = [[1000 * (i + 1) + k for k in range(nn)] for i, nn in enumerate(sizes_per_node)]
             reqs.append(("c17.combine", dict(base, ghost=(tag != ""), subs=subs)))
+        if "members" in ((obs.get("fields") or {}).get("collection") or {}):
+            # `Mesh.subcollection`: members scalar "a" (1 component) and vector "b" (grid.dim components)
+            names += ["subcoll", "subcoll_ghost"]
+            ncs = [int(v) for v in obs["fields"]["collection"]["member_ncomp"]]
+            reqs.append(("c17.subcoll", dict(base, ghost=False, members=ncs)))
+            reqs.append(("c17.subcoll", dict(base, ghost=True, members=ncs)))
         mesh_req_index.append((start, names))
 
     # ---- leg 3: malformed requests -------------------------------------------------------------
